@@ -88,10 +88,33 @@ async def sk_collision_keywords(hp, w, rnd, ctx):
         await w.observe()
 
 
+async def sk_store_over_mixed_recent(hp, w, rnd, ctx):
+    """One STORE over messages of which some are still \\Recent and some no
+    longer are (in both orders): \\Recent can be neither set nor cleared by it."""
+    a = w.session()
+    b = w.session()
+    for i in range(6):
+        await w.op_append(a, "INBOX", flags=rnd.choice([None, ["\\Seen"]]))
+    await w.op_select(a, "INBOX")
+    # looking at single messages ends their \\Recent-ness for this server
+    await w.op_fetch(a, [3], "FLAGS")
+    await w.op_fetch(a, [5], "UID FLAGS")
+    await w.op_select(b, "INBOX", examine=True)
+    for verb, fl in (("replace", ["\\Flagged"]), ("replace", ["kw1", "\\Answered"]), ("add", ["\\Draft"]), ("remove", ["\\Flagged"]), ("replace", [])):
+        await w.op_store(a, rnd.choice([[1, 2, 3], [2, 3, 4, 5, 6], [3, 4], [1, 2, 3, 4, 5, 6]]), verb, fl, silent=rnd.random() < 0.3)
+        await w.op_noop(b)
+        w.check_disk("INBOX")
+    us = [m.uid for m in w.boxes["INBOX"].msgs if m.uid is not None]
+    if len(us) >= 5:
+        await w.op_store(a, [us[1], us[2], us[4]], "replace", ["\\Seen"], uid_mode=True)
+    await w.observe()
+    w.check_disk("INBOX")
+
+
 class C04(HistProp):
     prop = PROP
     names = ["INBOX", "other"]
-    skeletons = [sk_all_single_message_flag_sets, sk_store_semantics, sk_collision_keywords]
+    skeletons = [sk_all_single_message_flag_sets, sk_store_semantics, sk_collision_keywords, sk_store_over_mixed_recent]
     weights = {"store": 16, "uid_store": 10, "store_del": 3, "fetch": 6, "fetch_body": 6, "uid_fetch": 4, "append": 8, "copy": 5, "uid_copy": 2, "move": 2, "noop": 10,
                "search_flag": 8, "deliver": 3, "expunge": 2, "idle": 2, "examine": 2}
     opts = {"flag_pool": ORDINARY, "examine_prob": 0.1}
